@@ -260,8 +260,11 @@ class Interp:
         self.helpers = helpers if helpers is not None else {}    # name -> python callable(interp, args, kwargs) or Func
         self.max_unroll = max_unroll
         self.raises = []                # (path condition, exception name, message)
+        self.partial = []               # (path condition, condition needed for the operation to be defined, line, number of raise paths recorded before): divisions, pow(x, 0.5)
         self.path = ('true',)
         self.depth = 0
+        self.keep = set()       # local names kept as named intermediate quantities instead of being inlined
+        self.kept = {}
 
     def err(self, node, msg):
         raise Unsupported('%s:%s: %s' % (self.module.path, getattr(node, 'lineno', '?'), msg))
@@ -278,6 +281,9 @@ class Interp:
         if isinstance(v, bool) or v is None or isinstance(v, str):
             return v
         return num(v)
+
+    def ev_JoinedStr(self, n, env):
+        return '<str>'                # f-string: message building only
 
     def ev_Name(self, n, env):
         if n.id in env:
@@ -310,7 +316,7 @@ class Interp:
             if n.attr == 'inf':
                 self.err(n, 'infinity')
             return ('fref', n.attr)
-        if n.attr == 'shape':
+        if n.attr in ('shape', 'size'):
             return Shape()
         if isinstance(base, dict) and n.attr in base:
             return base[n.attr]
@@ -348,6 +354,8 @@ class Interp:
         if isinstance(n.op, (ast.BitAnd, ast.BitOr)) and (is_cond(a) or isinstance(a, bool)):
             a, b = self.want_cond(a, n), self.want_cond(b, n)
             return cand(a, b) if isinstance(n.op, ast.BitAnd) else cor(a, b)
+        if isinstance(a, str) or isinstance(b, str):
+            return '<str>'            # message building (only ever used in raise / warn / print)
         if isinstance(a, (list, tuple)) and not is_expr(a) and isinstance(n.op, ast.Add):
             return list(a) + list(b)
         a, b = self.want_expr(a, n), self.want_expr(b, n)
@@ -358,8 +366,12 @@ class Interp:
         if isinstance(n.op, ast.Mult):
             return mk('mul', a, b)
         if isinstance(n.op, ast.Div):
+            if not (isnum(b) and b[1] != 0):
+                self.partial.append((self.path, ('ne', b, num(0)), n.lineno, len(self.raises)))
             return mk('div', a, b)
         if isinstance(n.op, ast.Pow):
+            if isnum(b) and b[1].denominator != 1 and not isnum(a):
+                self.partial.append((self.path, ('ge', a, num(0)), n.lineno, len(self.raises)))
             return mkpow(a, b)
         self.err(n, 'binary op %s' % type(n.op).__name__)
 
@@ -509,6 +521,7 @@ class Interp:
         if fn.module is not self.module:
             sub = Interp(fn.module, self.helpers, self.max_unroll)
             sub.raises = self.raises
+            sub.partial = self.partial
             sub.path = self.path
         for i, p in enumerate(params):
             if i < len(args):
@@ -560,6 +573,9 @@ class Interp:
             cur = self.ev(self.load_of(st.target), env)
             v = self.ev(st.value, env)
             opn = {ast.Add: 'add', ast.Sub: 'sub', ast.Mult: 'mul', ast.Div: 'div'}.get(type(st.op))
+            if isinstance(cur, str) and isinstance(v, str) and opn == 'add':
+                self.assign(st.target, '<str>', env)           # message building
+                return NORET
             if opn is None:
                 self.err(st, 'augmented op')
             self.assign(st.target, mk(opn, self.want_expr(cur, st), self.want_expr(v, st)), env)
@@ -597,7 +613,10 @@ class Interp:
         return t2
 
     def assign(self, tg, v, env):
-        if isinstance(tg, ast.Name):
+        if isinstance(tg, ast.Name) and tg.id in self.keep and is_expr(v) and tg.id not in self.kept:
+            self.kept[tg.id] = v
+            env[tg.id] = ('var', tg.id)
+        elif isinstance(tg, ast.Name):
             env[tg.id] = v
         elif isinstance(tg, (ast.Tuple, ast.List)):
             if not isinstance(v, (list, tuple)) or is_expr(v) or len(v) != len(tg.elts):
@@ -881,7 +900,10 @@ def _abs(interp, args, kwargs, n):
 
 
 def _pow(interp, args, kwargs, n):
-    return mkpow(interp.want_expr(args[0], n), interp.want_expr(args[1], n))
+    a, b = interp.want_expr(args[0], n), interp.want_expr(args[1], n)
+    if isnum(b) and b[1].denominator != 1 and not isnum(a):
+        interp.partial.append((interp.path, ('ge', a, num(0)), n.lineno, len(interp.raises)))
+    return mkpow(a, b)
 
 
 def _minmax(tag):
@@ -948,7 +970,7 @@ BUILTIN_CALLS = {
     'min': _minmax('min'), 'max': _minmax('max'), 'minimum': _minmax('min'), 'maximum': _minmax('max'),
     'len': _len, 'float': _float, 'square': _square, 'array': _array, 'asarray': _array, 'sign': _sign,
     'logical_and': _logical('and'), 'logical_or': _logical('or'), 'dict': _dict, 'zip': _zip,
-    'float64': _float,
+    'float64': _float, 'str': (lambda i, a, k, n: '<str>'), 'repr': (lambda i, a, k, n: '<str>'),
 }
 
 
